@@ -21,6 +21,14 @@ pub open spec fn scope_query(t: Token) -> (u64, u32) {
     ((t.raw.src_line + 1) as u64, (if t.raw.src_col as int + t.offset as int > u32::MAX as int { u32::MAX } else { (t.raw.src_col + t.offset) as u32 }))
 }
 
+/// C14's statement for one token: nothing without a function map for the token's source, else the function map's answer for the token's original position
+pub open spec fn token_scope_post(h: &SourceMapHermes, token: Token, res: Option<&str>) -> bool {
+    ((token.raw.src_id >= h.function_maps@.len() || h.function_maps@[token.raw.src_id as int] is None) ==> res is None)
+    && (token.raw.src_id < h.function_maps@.len() ==> (match h.function_maps@[token.raw.src_id as int] {
+            Some(fm) => scope_post(fm, scope_query(token), res),
+            None => res is None }))
+}
+
 //@ lemma_tuple64_ord_laws [C14]
 pub proof fn lemma_tuple64_ord_laws()
     ensures ord_laws::<(u64,u32)>(),
